@@ -28,6 +28,10 @@ A *case* is the literal input of one call of the real code
   ds_container  (dataset lists) 'list' | 'tuple' | 'generator'
   dslist_noise  'none' | 'matrix' | 'per_dataset' | 'per_dataset_array3d' (one 3-D array, one matrix per
                 dataset) | 'per_dataset_per_fold' (list over datasets of lists over folds)
+  kind          absent = one call; 'session' = ONE Dataset object analysed by several successive calls
+                (round 4, format in engines/C02_session.py): every call is judged as the stand-alone
+                call on a pristine copy of the case's ORIGINAL numbers, the dataset and the precision
+                objects must be bit-identical after every call, earlier results must not change later
   view          None or a re-presentation of the same data under which the property says the
                 result is invariant: {'rows': permutation, 'fold_map': [[old, new] …] | None,
                 'chan': permutation | None}; the real code is run on the case *and* on the
@@ -36,11 +40,15 @@ A *case* is the literal input of one call of the real code
 import itertools
 import json
 import math
+import os
+import subprocess
+import sys
 from fractions import Fraction as F
 
 import numpy as np
 
 from lean import rat, unrat, fbits, unfbits, close
+from engines import C02_session as SES
 
 PROPERTY = 'C02'
 LEVEL = 'proof'
@@ -81,6 +89,13 @@ THEOREMS = [_P + n for n in (
     'leaf_pair_loop',
     'pairsOf_eq_loopPairs',
     'leaf_fold_selectors',
+    # round 4: reuse sessions (memory model of one call, induction over the step list)
+    'leaf_no_input_writes',
+    'call_keeps_content',
+    'session_calls_independent',
+    'session_content_is_sorts_only',
+    'session_objects_independent',
+    'session_call_value',
 )]
 RULE = ('cases come from one PRNG: fold-balanced designs with 2-5 conditions x 2-5 folds x 1-3 '
         'repetitions x 1-5 channels (plus a many-fold stream with 11-12 folds and a malformed '
@@ -90,7 +105,15 @@ RULE = ('cases come from one PRNG: fold-balanced designs with 2-5 conditions x 2
         'one matrix (SPD or non-symmetric) / one SPD per fold, remove_mean, crossnobis (exact '
         'rationals) or poisson_cv (doubles), called through calc_rdm or directly; every case is also '
         're-presented (rows permuted, folds relabelled, channels permuted with the precision) and '
-        'both presentations are compared with the same model answer. A case is non-trivial when '
+        'both presentations are compared with the same model answer. Reuse sessions (about 12 %, plus 11 '
+        'fixed recipes at the start): ONE Dataset object (float64 C / Fortran / strided, int64) with two '
+        'condition descriptors and a fold descriptor, 2-4 successive calc_rdm / calc_rdm_crossnobis / '
+        'calc_rdm_poisson_cv calls with changing options (remove_mean first then without, precision none / '
+        'matrix / per-fold list as the SAME objects or other ones, default then explicit folds, other '
+        'descriptor, other method) and optionally a user ds.sort_by in between; every call is compared '
+        'with the model answer of the stand-alone call on the original numbers, the dataset and all '
+        'precision objects must be bit-identical after every call, results read again at the end. '
+        'A case is non-trivial when '
         'some dissimilarity is non-zero; distinct = distinct (method, design, values, precision, flags)')
 BRANCHES = ['crossnobis:noise_none', 'crossnobis:noise_matrix', 'crossnobis:noise_list',
             'poisson_cv', 'cv:default', 'cv:explicit', 'remove_mean', 'labels:int', 'labels:str',
@@ -101,7 +124,7 @@ BRANCHES = ['crossnobis:noise_none', 'crossnobis:noise_matrix', 'crossnobis:nois
             'input:dataset_list', 'dslist:noise_none', 'dslist:noise_matrix', 'dslist:noise_per_dataset',
             'dslist:noise_per_dataset_array3d', 'dslist:noise_per_dataset_per_fold',
             'dslist:tuple', 'dslist:generator', 'desc:array', 'layout:int', 'layout:fortran',
-            'layout:strided', 'noise_dtype:int', 'labels:bool']
+            'layout:strided', 'noise_dtype:int', 'labels:bool'] + SES.REQUIRED
 ASSUMPTIONS = [
     'float64 evaluation (numpy on the implementation side, Lean Float / exact Rat on the model side) '
     'agrees within rtol 1e-9 / atol 1e-9 on the small dyadic inputs used',
@@ -290,6 +313,16 @@ def make_dslist(rng, noise=None):
 
 def generate(rng, tier):
     n = 252 if tier == 'quick' else 9000
+    # reuse sessions first: state that survives a call also leaks into later *cases* of the same
+    # process; a session reproduces it inside one case (so its replay fails on its own)
+    for recipe, layout in SES.FIXED:
+        yield SES.gen_session(rng, _labels, _spd, _nonsym, recipe=recipe, layout=layout)
+    for k, recipe in enumerate(SES.TWIN_FIXED):       # two objects that collide on every coarse key
+        for _ in range(20):
+            c = SES.gen_session(rng, _labels, _spd, _nonsym, recipe=recipe, twin=True)
+            if c['twin']['kind'] == ('merge' if k % 2 == 0 else 'regroup'):
+                break
+        yield c
     # a few fixed-shape cases first so that every branch is reached whatever the seed
     yield make_case(rng, method='poisson_cv', default_cv=False)
     yield make_case(rng, method='poisson_cv', default_cv=True)
@@ -331,12 +364,18 @@ def generate(rng, tier):
             yield make_malformed(rng)
         elif u < 0.25:
             yield make_dslist(rng)
+        elif u < 0.37:
+            yield SES.gen_session(rng, _labels, _spd, _nonsym, twin=rng.random() < 0.3)
         else:
             yield make_case(rng)
 
 
 def search(rng, tier):
-    return generate(rng, 'thorough')
+    """failing-input search: the fixed session recipes, then every second case a random session"""
+    for k, c in enumerate(generate(rng, 'thorough')):
+        yield c
+        if k >= len(SES.FIXED) and k % 2 == 0:
+            yield SES.gen_session(rng, _labels, _spd, _nonsym, twin=rng.random() < 0.5)
 
 
 # ------------------------------------------------------------------ the real code
@@ -463,9 +502,14 @@ def _call(case):
     except Exception as exc:      # noqa: BLE001  any library exception is a result, never a harness crash
         name = type(exc).__name__
         return {'exc': name if name in ('ValueError', 'TypeError', 'AssertionError') else 'other'}
-    if r.dissimilarities.shape[0] != 1 or 'cond' not in r.pattern_descriptors:
+    return _canon(r, 'cond')
+
+
+def _canon(r, dname):
+    """canonical form of a returned one-RDM object: labelled pairs with their values"""
+    if r.dissimilarities.shape[0] != 1 or dname not in r.pattern_descriptors:
         return {'exc': 'malformed', 'shape': list(r.dissimilarities.shape)}
-    labels = [_plain(v) for v in r.pattern_descriptors['cond']]
+    labels = [_plain(v) for v in r.pattern_descriptors[dname]]
     vec = [float(v) for v in r.dissimilarities[0]]
     pairs = list(itertools.combinations(labels, 2))
     if len(pairs) != len(vec):
@@ -518,13 +562,22 @@ def _call_list(case):
 
 
 def run_impl(case):
+    # every object handed to the library is built here from the case's JSON (fresh lists / arrays per
+    # call, nothing shared between cases or between a case and its view); the JSON itself must come
+    # back untouched
+    frozen = json.dumps(case, sort_keys=True)
     with np.errstate(all='ignore'):
         import warnings
         with warnings.catch_warnings():
             warnings.simplefilter('ignore')
-            res = {'main': _call(case), 'variant': None}
-            if case.get('view'):
-                res['variant'] = _call(_apply_view(case))
+            if case.get('kind') == 'session':
+                res = SES.run_session(case, _measurements, _descriptor, _noise_array, _plain, _canon)
+            else:
+                res = {'main': _call(case), 'variant': None}
+                if case.get('view'):
+                    res['variant'] = _call(_apply_view(case))
+    if json.dumps(case, sort_keys=True) != frozen:
+        raise RuntimeError('harness: the case description was modified while running the library')
     return res
 
 
@@ -567,6 +620,10 @@ def _request(case, what):
 
 
 def model_requests(case):
+    if case.get('kind') == 'session':
+        # the model is a function of the call's input alone: every call of a session is asked as the
+        # stand-alone call on the original numbers (Props `session_calls_independent`)
+        return [_request(SES.step_case(case, i), w) for i in SES.calls_of(case) for w in ('algo', 'spec')]
     if case.get('parts'):
         return [_request(p, w) for p in case['parts'] for w in ('algo', 'spec')]
     return [_request(case, 'algo'), _request(case, 'spec')]
@@ -584,6 +641,12 @@ def _dec_answer(case, ans):
 
 
 def model_result(case, answers):
+    if case.get('kind') == 'session':
+        out = {}
+        for k, i in enumerate(SES.calls_of(case)):
+            sub = SES.step_case(case, i)
+            out[str(i)] = {'algo': _dec_answer(sub, answers[2 * k]), 'spec': _dec_answer(sub, answers[2 * k + 1])}
+        return {'steps': out}
     if case.get('parts'):
         return {'parts': [{'algo': _dec_answer(p, answers[2 * k]), 'spec': _dec_answer(p, answers[2 * k + 1])}
                           for k, p in enumerate(case['parts'])]}
@@ -605,6 +668,25 @@ def _diff(tag, got, want):
 
 
 def compare(case, impl, model):
+    if case.get('kind') == 'session':
+        for i, st in enumerate(impl['steps']):
+            if st['t'] == 'sort':
+                if st['ok']:
+                    return f'session step {i + 1} (ds.sort_by): {st["ok"]}'
+                continue
+            m = model['steps'][str(i)]
+            tag = f'session step {i + 1} of {len(impl["steps"])}'
+            d = None
+            if 'exc' not in m['algo']:
+                d = _diff(tag + ': model algo vs model spec', m['algo'], m['spec'])
+            d = d or _diff(tag + ': impl', st['res'], m['algo'])
+            if d:
+                return d
+            if st['mutated']:
+                return f'{tag}: input not bit-identical after the call: {st["mutated"]}'
+        if impl.get('late'):
+            return 'session: ' + impl['late']
+        return None
     if case.get('parts'):
         got = impl['main']
         if 'exc' in got:
@@ -656,6 +738,14 @@ def _design(case):
 
 
 def features(case, impl):
+    if case.get('kind') == 'session':
+        cs = [st for st in case['steps'] if st['t'] == 'call']
+        return {'method': 'session', 'via': 'session', 'session': True, 'n_calls': len(cs),
+                'n_steps': len(case['steps']), 'layout': case.get('layout', 'c'),
+                'objects': 2 if case.get('twin') else 1,
+                'first_call': cs[0]['method'] + ('+remove_mean' if cs[0]['remove_mean'] else ''),
+                'n_channel': case['P'], 'malformed_args': False, 'dataset_list': False,
+                'branches': SES.branches(case)}
     n_cond, n_fold, reps, balanced = _design(case)
     br = []
     if case['method'] == 'crossnobis':
@@ -719,6 +809,13 @@ def features(case, impl):
 
 
 def nontrivial_key(case, impl):
+    if case.get('kind') == 'session':
+        if impl is None or not any(st['t'] == 'call' and 'pairs' in st['res'] and
+                                   any(abs(p[2]) > 1e-12 for p in st['res']['pairs'])
+                                   for st in impl.get('steps', [])):
+            return None
+        return ['session', case['cond'], case['cond2'], case['fold'], case['x'], case['steps'],
+                case.get('twin')]
     if impl is not None and case.get('parts') and 'rdms' in impl.get('main', {}):
         if all(abs(p[2]) < 1e-12 for r in impl['main']['rdms'] for p in r['pairs']):
             return None
@@ -883,7 +980,151 @@ def _outside(case):
     return False
 
 
+def _oracle_session(case):
+    """every call of the session against the statement evaluated on the case's ORIGINAL numbers
+    (exact, plain loops; the sorts so far applied in plain Python); the inputs must be bit-identical
+    after every call; no earlier result may change afterwards"""
+    impl = run_impl(case)
+    n = len(case['steps'])
+    n_call = 0
+    for i, st in enumerate(impl['steps']):
+        feats = {'signature': 'session', 'session': True, 'step': i + 1}
+        if st['t'] == 'sort':
+            if st['ok']:
+                return {'what': f'session step {i + 1}/{n}: after ds.sort_by the dataset does not hold its '
+                                'rows in stably sorted order', 'observed': st['ok'],
+                        'expected': 'the original rows, stably sorted', 'features': feats}
+            continue
+        n_call += 1
+        sub = SES.step_case(case, i)
+        defn = None if _outside(sub) else definition(sub)
+        where = 'first call' if n_call == 1 else \
+            ('a later call; another dataset object was analysed before' if case.get('twin')
+             else 'a later call on a dataset object that was analysed before')
+        if defn is not None:
+            bad = _check_against(defn, st['res'], f"session step {i + 1}/{n} ({where}): {sub['method']}")
+            if bad:
+                feats['later_call'] = n_call > 1
+                bad['features'] = feats
+                return bad
+        if st['mutated']:
+            feats['signature'] = 'input_modified'
+            return {'what': f'session step {i + 1}/{n}: the call changed its input ({st["mutated"]}); '
+                            'every later analysis of the same object is computed from other data',
+                    'observed': st['mutated'], 'expected': 'dataset and precision arguments bit-identical '
+                    'after the call', 'features': feats}
+    if impl.get('late'):
+        return {'what': 'session: ' + impl['late'] + ' (the result shares memory with later computations)',
+                'observed': [st.get('late') for st in impl['steps'] if st.get('late')],
+                'expected': 'a returned RDM keeps its values',
+                'features': {'signature': 'result_changed_later', 'session': True}}
+    return None
+
+
 def oracle(case):
+    """the property on the real code for this case.  A failure seen in this process is confirmed in a
+    FRESH interpreter before it is reported: state that survives a call (a module-level memo, a
+    shared buffer) also leaks from one case into the next case of the same process, and such a case
+    is not a failing input on its own (its replay would pass) — the reuse sessions reproduce that
+    class inside ONE case, and those are reported.  If the fresh run cannot be made, the in-process
+    verdict stands."""
+    o = _oracle_here(case)
+    if o is None or os.environ.get('C02_ORACLE_CHILD'):
+        return o
+    fresh = _oracle_fresh(case)
+    if fresh == 'holds':
+        return None
+    if isinstance(fresh, dict):
+        return fresh
+    return o
+
+
+_FRESH_SERVER = r"""
+import sys, json, os
+sys.path[:0] = json.loads(sys.argv[1])
+from engines import C02
+import rsatoolbox.rdm.calc, rsatoolbox.data          # imported, never called: pristine module state
+sys.stdout.write('ready\n'); sys.stdout.flush()
+for line in sys.stdin:
+    r, w = os.pipe()
+    pid = os.fork()
+    if pid == 0:                                        # a copy of the pristine interpreter
+        os.close(r)
+        try:
+            o = C02._oracle_here(json.loads(line))
+            out = json.dumps(o if o else 'holds', default=str)
+        except BaseException as exc:
+            out = json.dumps({'child_error': repr(exc)})
+        os.write(w, out.encode())
+        os._exit(0)
+    os.close(w)
+    data = b''
+    while True:
+        chunk = os.read(r, 65536)
+        if not chunk:
+            break
+        data += chunk
+    os.close(r)
+    os.waitpid(pid, 0)
+    sys.stdout.write(data.decode() + '\n'); sys.stdout.flush()
+"""
+_fresh = {'proc': None, 'memo': {}}
+
+
+def _fresh_close():
+    p = _fresh.get('proc')
+    if p is not None:
+        try:
+            p.stdin.close()
+            p.wait(timeout=5)
+        except Exception:  # noqa: BLE001
+            p.kill()
+        _fresh['proc'] = None
+
+
+import atexit  # noqa: E402
+atexit.register(_fresh_close)
+
+
+def _oracle_fresh(case):
+    """`_oracle_here(case)` evaluated in an interpreter in which the library was imported but never
+    called (a fork of a pristine template process per evaluation): 'holds' | failure dict | None
+    when no fresh evaluation could be made"""
+    key = json.dumps(case, sort_keys=True, default=str)
+    if key in _fresh['memo']:
+        return _fresh['memo'][key]
+    out = None
+    try:
+        p = _fresh['proc']
+        if p is None or p.poll() is not None:
+            env = dict(os.environ, C02_ORACLE_CHILD='1', TQDM_DISABLE='1', OPENBLAS_NUM_THREADS='1',
+                       OMP_NUM_THREADS='1')
+            p = subprocess.Popen([sys.executable, '-c', _FRESH_SERVER, json.dumps(sys.path)],
+                                 stdin=subprocess.PIPE, stdout=subprocess.PIPE, stderr=subprocess.DEVNULL,
+                                 text=True, env=env)
+            if p.stdout.readline().strip() != 'ready':
+                p.kill()
+                raise RuntimeError('fresh-interpreter server did not start')
+            _fresh['proc'] = p
+        p.stdin.write(key + '\n')
+        p.stdin.flush()
+        ans = json.loads(p.stdout.readline())
+        if not (isinstance(ans, dict) and 'child_error' in ans):
+            out = ans
+    except Exception:  # noqa: BLE001
+        try:
+            if _fresh['proc'] is not None:
+                _fresh['proc'].kill()
+        except Exception:  # noqa: BLE001
+            pass
+        _fresh['proc'] = None
+    _fresh['memo'][key] = out
+    return out
+
+
+def _oracle_here(case):
+    if case.get('kind') == 'session':
+        return _oracle_session(case)
     if case.get('parts'):
         if any(_outside(p) for p in case['parts']):
             return None
@@ -1020,6 +1261,8 @@ def _candidates(case):
 
 
 def shrink(case, still_fails):
+    if case.get('kind') == 'session':
+        return SES.shrink(case, still_fails)
     cur = case
     for _ in range(60):
         for cand in _candidates(cur):
